@@ -32,3 +32,34 @@ pub assume_specification[ u128::overflowing_sub ](a: u128, b: u128) -> (r: (u128
         r.1 == ((a as int) < (b as int)),
         r.0 as int == (if (a as int) < (b as int) { a as int - b as int + 0x1_0000_0000_0000_0000_0000_0000_0000_0000 } else { a as int - b as int }),
 ;
+
+pub fn vx_min(a: usize, b: usize) -> (r: usize)
+    ensures
+        r == (if a <= b { a } else { b }),
+{
+    if a <= b { a } else { b }
+}
+
+pub struct VxError;
+
+#[verifier::external_body]
+pub fn vx_err() -> (r: VxError) {
+    VxError
+}
+
+// T12: a Vec of a non-zero-sized element type holds at most isize::MAX elements (Rust allocation guarantee)
+#[verifier::external_body]
+pub proof fn axiom_vec_len_bound<T>(v: &Vec<T>)
+    ensures
+        v.len() <= 0x7FFF_FFFF_FFFF_FFFF,
+{
+}
+
+// T11: `#[derive(Clone)]` returns a value equal to the original
+#[verifier::external_body]
+pub fn vx_clone<T: Clone>(x: &T) -> (r: T)
+    ensures
+        r == *x,
+{
+    x.clone()
+}
